@@ -44,6 +44,9 @@ type PtrV struct {
 	// LazyStruct: produced by a specification's field selection of a struct-typed field; it stands
 	// for the struct VALUE at the time of evaluation, not for a pointer
 	LazyStruct bool
+	// Backed: a local [n]byte variable whose address is sliced; its bytes live in the element heap
+	// (like a slice backing array) so that writes through the slice reach the array
+	Backed bool
 }
 
 type FuncV struct {
@@ -86,6 +89,9 @@ type State struct {
 	refClass map[string]int8 // syntactic classification of reference terms on this path (fresh / old)
 	stack    map[string]bool // references into non-escaping locals
 	facts    *constFacts     // term/constant (dis)equalities learned from branches
+	// readsOld: scratch state in which the definition of an opaque spec function is evaluated: every
+	// reference not known to be fresh denotes memory that existed at entry
+	readsOld bool
 }
 
 func NewState() *State {
@@ -115,6 +121,7 @@ func (s *State) Clone() *State {
 		}
 	}
 	n.facts = s.facts.clone()
+	n.readsOld = s.readsOld
 	if s.stack != nil {
 		n.stack = make(map[string]bool, len(s.stack))
 		for k, v := range s.stack {
@@ -308,7 +315,7 @@ func (x *Exec) flatten(t types.Type, v Value) []*Term {
 		return []*Term{v.(*Term)}
 	case *types.Pointer:
 		p := v.(*PtrV)
-		if p.Fld != nil || p.SlEl || p.Inner != nil {
+		if p.Fld != nil || p.SlEl || p.Inner != nil || p.Backed {
 			unsupported("interior pointer escapes to the heap (%s)", t)
 		}
 		return []*Term{p.Ref}
@@ -591,21 +598,32 @@ func (x *Exec) heapArr(st *State, name string, idx, elt Sort) *Term {
 		return t
 	}
 	// arrays first touched after a whole-heap havoc belong to that havoc generation, not to the entry heap
-	gen := "0"
-	if g, ok := st.ghost["$gen"].(string); ok {
-		gen = g
-	}
-	for k, v := range st.ghost {
-		if strings.HasPrefix(k, "$havoc:") {
-			pfx := k[7:]
-			if name == pfx || strings.HasPrefix(name, pfx+".") {
-				if g, ok := v.(string); ok {
-					gen = g
+	gen := x.heapGenOf(st, name)
+	t := x.D.Const(smtName(name+"@"+gen), ArraySort(idx, elt))
+	if root, ok := x.loopBaseGen(st, name); ok && root != gen && idx.K == KInt {
+		// first touched after the havoc of a loop that writes this array only at objects allocated
+		// during the run: memory that existed at entry reads as in the generation before the loop
+		base := x.D.Const(smtName(name+"@"+root), ArraySort(idx, elt))
+		if root == "0" {
+			if x.arrBorn == nil {
+				x.arrBorn = map[string]int{}
+			}
+			if _, ok := x.arrBorn[base.S]; !ok {
+				x.arrBorn[base.S] = 0
+			}
+			if x.heap0 != nil {
+				if _, ok := x.heap0[name]; !ok {
+					x.heap0[name] = base
 				}
 			}
+		} else if _, ok := x.arrBorn[base.S]; !ok {
+			x.noteBorn(base)
 		}
+		if st.fwd == nil {
+			st.fwd = map[string]*fwdCache{}
+		}
+		st.fwd[name] = &fwdCache{arr: t.S, ent: map[string]*Term{}, base: base, allFresh: true}
 	}
-	t := x.D.Const(smtName(name+"@"+gen), ArraySort(idx, elt))
 	if gen == "0" {
 		if x.arrBorn == nil {
 			x.arrBorn = map[string]int{}
@@ -641,6 +659,11 @@ func (x *Exec) heapHavocAll(st *State) {
 		x.heapHavoc(st, n)
 	}
 	st.ghost["$havocAll"] = TTrue
+	for k := range st.ghost {
+		if strings.HasPrefix(k, "$havocBase:") {
+			delete(st.ghost, k)
+		}
+	}
 	x.fresh++
 	st.ghost["$gen"] = fmt.Sprintf("g%d", x.fresh)
 	x.bumpEpoch(st)
@@ -759,6 +782,19 @@ func elemPrefix(t types.Type) string { return "E:" + typeKey(t) }
 func (x *Exec) elemRef(base, idx *Term) *Term { return x.D.Fun("elemref", SInt, base, idx) }
 
 func (x *Exec) Load(st *State, p *PtrV) Value {
+	if p.Backed {
+		n := byteArrayLen(p.Elem)
+		var v *Term
+		for i := 0; i < n; i++ {
+			b := x.loadElem(st, p.Ref, BVConstU(uint64(i), 64), types.Typ[types.Uint8]).(*Term)
+			if v == nil {
+				v = b
+			} else {
+				v = Concat(v, b)
+			}
+		}
+		return v
+	}
 	switch {
 	case p.Inner != nil:
 		arr := x.Load(st, p.Inner).(*Term)
@@ -795,6 +831,15 @@ func backedArray(t types.Type) (*types.Array, bool) {
 }
 
 func (x *Exec) StoreTo(st *State, p *PtrV, v Value) {
+	if p.Backed {
+		n := byteArrayLen(p.Elem)
+		bv := v.(*Term)
+		for i := 0; i < n; i++ {
+			hi := 8*(n-i) - 1
+			x.storeElem(st, p.Ref, BVConstU(uint64(i), 64), types.Typ[types.Uint8], Extract(hi, hi-7, bv))
+		}
+		return
+	}
 	switch {
 	case p.Inner != nil:
 		arr := x.Load(st, p.Inner).(*Term)
@@ -819,8 +864,8 @@ func (x *Exec) StoreTo(st *State, p *PtrV, v Value) {
 		a := v.(*ArrSym)
 		for i, c := range x.compsOf(at.Elem()) {
 			name := elemPrefix(at.Elem()) + c.suffix
-			arr := x.heapArr(st, name, SInt, ArraySort(SBV64, c.sort))
-			st.heap[name] = x.nameTerm(st, Store(arr, p.Ref, a.Comps[i]), "h")
+			x.heapArr(st, name, SInt, ArraySort(SBV64, c.sort))
+			x.heapStoreFwd(st, name, p.Ref, a.Comps[i])
 		}
 		return
 	}
@@ -830,7 +875,7 @@ func (x *Exec) StoreTo(st *State, p *PtrV, v Value) {
 // slice elements: arrays  E:<T><comp> : Array Int (Array BV64 sort)
 func (x *Exec) loadElem(st *State, base, idx *Term, t types.Type) Value {
 	if _, ok := t.Underlying().(*types.Struct); ok {
-		return x.loadStruct(st, x.elemRef(base, idx), t)
+		return x.loadStruct(st, x.elemRefSt(st, base, idx), t)
 	}
 	cs := x.compsOf(t)
 	var ts []*Term
@@ -849,7 +894,7 @@ func (x *Exec) loadElem(st *State, base, idx *Term, t types.Type) Value {
 
 func (x *Exec) storeElem(st *State, base, idx *Term, t types.Type, v Value) {
 	if _, ok := t.Underlying().(*types.Struct); ok {
-		x.storeStruct(st, x.elemRef(base, idx), t, v)
+		x.storeStruct(st, x.elemRefSt(st, base, idx), t, v)
 		return
 	}
 	cs := x.compsOf(t)
@@ -947,6 +992,22 @@ func (x *Exec) seqOf(st *State, s *SliceV) *Term {
 	e := x.D.Fun("seqempty", SSeq)
 	st.Assume(Eq(x.seqLen(e), BVConstU(0, 64)))
 	st.Assume(Implies(Eq(s.Len, BVConstU(0, 64)), Eq(t, e)))
+	if s.Len.IsConst && s.Len.BVal.Int64() == 1 {
+		// a one-byte sequence is determined by its byte
+		st.Assume(Eq(t, x.seqByte(st, Select(arr, s.Off))))
+	}
+	if s.Len.IsConst && s.Len.BVal.Int64() >= 2 && s.Len.BVal.Int64() <= 8 {
+		// a short constant-length sequence is the concatenation of its bytes
+		{
+			n := s.Len.BVal.Int64()
+			c := x.seqByte(st, Select(arr, s.Off))
+			for i := int64(1); i < n; i++ {
+				c = x.seqCat(st, c, x.seqByte(st, Select(arr, BVBin("bvadd", s.Off, BVConstU(uint64(i), 64)))))
+			}
+			st.Assume(Eq(t, c))
+			x.catParts[t.S] = x.catParts[c.S]
+		}
+	}
 	return t
 }
 
